@@ -1,5 +1,5 @@
-\* exhaustive with reorgs (depth 1, blocks of <= 1 tx), 3 steps
-SPECIFICATION MCSpec
+\* careless variant: stempool re-validated only when the new public-pool tx shares a kernel or an input with a stem tx; must violate StemJointlyValid (duplicate output)
+SPECIFICATION MCSpecRec
 CONSTANTS
   Atoms <- AtomsSmall
   Subs <- SubsSmall
@@ -12,15 +12,15 @@ CONSTANTS
   MaxBlockWeight = 250
   MineWeight = 120
   FeeFirst = TRUE
-  StemRecheck = "always"
+  StemRecheck = "touching"
   FeeOnRemainder = TRUE
   EvictMode = "nodeps"
   ReconcileMature = TRUE
   ShortReorg = FALSE
   MaxBlocks = 2
-  MaxSteps = 4
+  MaxSteps = 3
   MaxBlockTxs = 1
-  MaxReorgDepth = 1
+  MaxReorgDepth = 0
   SimProfile = "mixed"
 VIEW View
-INVARIANTS PoolJointlyValid StemJointlyValid PoolMatureUnlocked NoUnderpaid NoOverweight AdmitMatureUnlocked MineableAccepted
+INVARIANTS EmitStemJointlyValid
